@@ -122,15 +122,37 @@ func NewExec(s *Suite) (*Exec, *common.Violation) {
 	if v := x.check(); v != nil {
 		return x, v
 	}
+	// The seed is applied completely: it is a scenario that is valid on a correct
+	// library; on a broken one every violation met on the way is kept (x.All)
+	// and the first one returned, so that a check can still reach the
+	// violation of its own property further down the seed.
+	var seedAll []*common.Violation
 	for _, e := range s.Seed {
 		if v, err := x.Apply(e); err != nil {
+			if len(seedAll) > 0 {
+				// the broken library left the seed's script: report what was seen
+				x.All = seedAll
+				return x, seedAll[0]
+			}
 			panic(fmt.Sprintf("INFRA: suite %s: seed event %v: %v", s.Name, e, err))
 		} else if v != nil {
-			return x, v
+			for _, w := range x.All {
+				dup := false
+				for _, o := range seedAll {
+					dup = dup || (o.Property == w.Property && o.Signature == w.Signature)
+				}
+				if !dup {
+					seedAll = append(seedAll, w)
+				}
+			}
 		}
 	}
 	// budgets count from the end of the seed
 	x.C.B = s.Budget
+	if len(seedAll) > 0 {
+		x.All = seedAll
+		return x, seedAll[0]
+	}
 	return x, nil
 }
 
@@ -210,6 +232,25 @@ type DFS struct {
 	// violation it causes is reported here.
 	NewTail bool
 	stop    bool
+	// violations met inside the seed are reported by the first boot only
+	seedReported bool
+}
+
+// prunes reports whether violations end a path: those of the checked
+// properties (all, if none is named) and panics do; the search goes on beyond
+// violations of other properties.
+func (d *DFS) prunes(vs []*common.Violation) bool {
+	if len(d.Props) == 0 {
+		return len(vs) > 0
+	}
+	for _, w := range vs {
+		for _, pr := range d.Props {
+			if w.Property == pr || w.Property == "C18" {
+				return true
+			}
+		}
+	}
+	return false
 }
 
 func (d *DFS) count(e sim.Event) {
@@ -234,8 +275,23 @@ func (d *DFS) Run(prefix []sim.Event) {
 		var v *common.Violation
 		x, v = NewExec(d.S)
 		if v != nil {
-			d.found(v, nil)
-			return false
+			// violations inside the seed: reported once; they end the search only
+			// if one of them belongs to the checked properties
+			prune := len(d.Props) == 0
+			for _, w := range x.All {
+				if !d.seedReported {
+					d.found(w, nil)
+				}
+				for _, pr := range d.Props {
+					if w.Property == pr || w.Property == "C18" {
+						prune = true
+					}
+				}
+			}
+			d.seedReported = true
+			if prune {
+				return false
+			}
 		}
 		for _, e := range path() {
 			v, err := x.Apply(e)
@@ -243,7 +299,7 @@ func (d *DFS) Run(prefix []sim.Event) {
 			if err != nil {
 				panic(fmt.Sprintf("INFRA: nondeterminism: replay of %v failed at %v: %v", path(), e, err))
 			}
-			if v != nil {
+			if v != nil && d.prunes(x.All) {
 				// a violation on an already explored path was reported before
 				return false
 			}
